@@ -42,7 +42,7 @@ func genScen(t *rapid.T) ScenCase {
 	n := rapid.IntRange(1, 4).Draw(t, "steps")
 	total := 0
 	for i := 0; i < n; i++ {
-		st := SStep{Post: rapid.SampledFrom([]string{"none", "assert_status", "assert_body", "jsonpath_then_assert", "assert_then_jsonpath"}).Draw(t, "post"),
+		st := SStep{Post: rapid.SampledFrom([]string{"none", "assert_status", "assert_body", "jsonpath_then_assert", "assert_then_jsonpath", "assert_size", "assert_size_and_body"}).Draw(t, "post"),
 			Count: rapid.SampledFrom([]int{1, 1, 2, 3}).Draw(t, "count")}
 		total += st.Count
 		c.Steps = append(c.Steps, st)
@@ -76,6 +76,11 @@ func (c ScenCase) yaml() string {
 			sb.WriteString("    postprocessors:\n" + jp + assert)
 		case "assert_then_jsonpath":
 			sb.WriteString("    postprocessors:\n" + assertBody + jp)
+		case "assert_size":
+			// every answer of the target carries a body of 16-20 bytes: the size assertion holds for all of them
+			sb.WriteString("    postprocessors:\n      - type: assert/response\n        size:\n          val: 5\n          op: \">\"\n")
+		case "assert_size_and_body":
+			sb.WriteString("    postprocessors:\n      - type: assert/response\n        body: [\"ok-marker\"]\n        size:\n          val: 1000\n          op: \"<\"\n")
 		}
 	}
 	sb.WriteString("scenarios:\n  - name: scn\n    weight: 1\n    min_waiting_time: 0\n    requests:\n")
@@ -94,7 +99,7 @@ func rejects(post, bad string) bool {
 	switch post {
 	case "assert_status", "jsonpath_then_assert":
 		return bad == "status500"
-	case "assert_body", "assert_then_jsonpath":
+	case "assert_body", "assert_then_jsonpath", "assert_size_and_body":
 		return bad == "no_marker"
 	}
 	return false
